@@ -20,7 +20,7 @@ RULE = ("16-bit: every frame x device type; 24-bit: every frame without map; dev
 ASSUMPTIONS = [
     "reference decoder written from the IEC 62386-102/103 frame layouts and the literal command table (rows of parts 202/205/206 pinned from the tree)",
     "a standard opcode (<224) decoded under a foreign device type comes back as UnknownGearCommand in the library; the property only demands a faithful generic command there, so this is counted as an observation, not a violation",
-    "the whole library (dali.gear, dali.device) is imported before judging (import completeness is not a quantified dimension)",
+    "the whole library (dali.gear, dali.device) is imported before judging; that importing the two packages registers every decoder is checked separately by C03 (fresh interpreter)",
 ]
 CHAIN_STRIDE = {'quick': 12, 'thorough': 60}      # every k-th shard is re-run in chains inside one process (non-initial process states)
 BOUNDS = {
@@ -50,6 +50,7 @@ def shards(tier):
         for mk in MAPKINDS:
             out.append(("evq", mk))
         out.append(("order", "pairs", 0, 1))
+        out.append(("order", "mapmut", 0, 1))
         for p in range(4):
             out.append(("order", "triples_small", p, 4))
     else:
@@ -61,6 +62,7 @@ def shards(tier):
             for s0 in range(0, 64, 8):
                 out.append(("evt", mk, s0, s0 + 8))
         out.append(("order", "pairs", 0, 1))
+        out.append(("order", "mapmut", 0, 1))
         for p in range(32):
             out.append(("order", "triples", p, 32))
     out.append(("len",))
@@ -256,6 +258,55 @@ def _run_order(res, mode, part, parts):
     sample(res, {"order_mode": mode, "alphabet_size": len(B), "example": [list(B[0]), list(B[-1])]})
 
 
+def _run_mapmut(res):
+    """Decodes interleaved with IN-PLACE changes of one shared map object: every sequence of <= 5 operations over
+    {decode F1, decode F2, decode a 16-bit frame, add_type(k1, 1), add_type(k1, 4), add_type(k2, 3), clear()}; the last
+    decode must equal a decode with a FRESH map object of the same content (the result depends on the map's content at
+    the time of the call, not on the object's identity or on what was decoded before)."""
+    from dali.command import from_frame
+    from dali.frame import ForwardFrame as FF
+    from dali.device.helpers import DeviceInstanceTypeMapper
+    F1 = (24, (5 << 17) | (1 << 15) | (2 << 10) | 0x00B)       # device 5 / instance 2, data 11
+    F2 = (24, (9 << 17) | (1 << 15) | (7 << 10) | 0x2AA)       # device 9 / instance 7
+    G = (16, 0x03A0)
+    OPS = [("dec", F1), ("dec", F2), ("dec", G), ("add", (5, 2), 1), ("add", (5, 2), 4), ("add", (9, 7), 3), ("clear",)]
+
+    def obs(r):
+        try:
+            txt = str(r)
+        except Exception as e:
+            txt = "EXC:" + repr(e)
+        return (type(r).__module__, type(r).__name__, r.frame.as_integer, txt)
+    for L in range(2, 6):
+        for seq in itertools.product(range(len(OPS)), repeat=L):
+            if OPS[seq[-1]][0] != "dec" or not any(OPS[i][0] != "dec" for i in seq):
+                continue
+            m, content = DeviceInstanceTypeMapper(), {}
+            got = None
+            for i in seq:
+                op = OPS[i]
+                if op[0] == "dec":
+                    got = obs(from_frame(FF(*op[1]), dev_inst_map=m))
+                elif op[0] == "add":
+                    m.add_type(short_address=op[1][0], instance_number=op[1][1], instance_type=op[2])
+                    content[op[1]] = op[2]
+                else:
+                    m.clear()
+                    content = {}
+            fresh = DeviceInstanceTypeMapper()
+            for (a, i_), t in content.items():
+                fresh.add_type(short_address=a, instance_number=i_, instance_type=t)
+            exp = obs(from_frame(FF(*OPS[seq[-1]][1]), dev_inst_map=fresh))
+            res["evaluations"] += 1
+            res["transitions"] += L
+            if got != exp:
+                add_violation(res, "C01:order-dependence:map-changed-in-place",
+                              f"after {[OPS[i] for i in seq[:-1]]} on ONE map object, decode {OPS[seq[-1]][1][1]:#x} -> {got}; "
+                              f"with a fresh map of the same content {content}: {exp}", {"order": [], "mapmut": list(seq)})
+            res["distinct"].add(("mapmut", got[1]))
+    sample(res, {"order_mode": "map changed in place", "operations": len(OPS), "max_length": 5})
+
+
 def run_shard(shard):
     from dali.command import from_frame, Command
     from dali.frame import ForwardFrame as FF
@@ -332,6 +383,8 @@ def run_shard(shard):
                         n += 1
         res["evaluations"] += n
         sample(res, {"lengths": "1..64 except 16,24", "decodes": n})
+    elif kind == "order" and shard[1] == "mapmut":
+        _run_mapmut(res)
     elif kind == "order":
         _run_order(res, shard[1], shard[2], shard[3])
     if registries() != before:
@@ -344,6 +397,8 @@ def replay(case):
     from dali.command import from_frame, Command
     from dali.frame import ForwardFrame as FF
     res = new_result()
+    if "mapmut" in case:
+        return run_shard(("order", "mapmut", 0, 1))["violations"]
     if "order" in case:
         if not case["order"]:
             return run_shard(("order", "pairs", 0, 1))["violations"]
